@@ -173,7 +173,12 @@ def assemble(unit_dir, cfg, read=repo_read):
                 key, "; emitted as inherent method of " + impl if impl and ent["item"][0] != "impl " + impl else "",
                 "; inserted %d ghost hint block(s)" % len(con["hints"]) if con and con["hints"] else ""))
         else:
-            close_impl()
+            impl = ent.get("impl")
+            if impl != cur_impl:
+                close_impl()
+                if impl:
+                    body.append("impl %s {\n" % impl)
+                    cur_impl = impl
             code = _strip_vis(text[it.attr_end:it.end])
             for a_, b_ in ent.get("rewrite", {}).items():
                 if a_ not in code:
